@@ -4,8 +4,8 @@
 From Coq Require Import ZArith List Bool.
 From Coq Require Import Uint63 FloatOps SpecFloat PrimFloat.
 From Coq Require Import Ring.
-From PV Require Import Model.Base Model.Emu Model.EmuLin Proofs.EmuMeas Proofs.EmuTimes
-  Proofs.EmuSample Proofs.EmuLin.
+From PV Require Import Model.Base Model.Emu Model.EmuLin Model.EmuHist Proofs.EmuMeas
+  Proofs.EmuTimes Proofs.EmuSample Proofs.EmuLin Proofs.EmuHist.
 Import ListNotations.
 Open Scope Z_scope.
 
@@ -247,3 +247,26 @@ Theorem C11_gauss_lindblad_hermitian : forall n H Ls rho, hermitian G gconj n H 
           (lindblad G g0 gadd gmul gopp gconj gim ghalf n H Ls (dagger G gconj rho)).
 Proof. exact gauss_lindblad_hermitian. Qed.
 Print Assumptions C11_gauss_lindblad_hermitian.
+
+(** Configuration histories on one emulator: a configuration without
+    state-preparation errors (no SPAM, or eta = 0) has no badly prepared atom,
+    for every history of reconfigurations and runs before it. *)
+Theorem C11_set_config_resets : forall n st c us, prep c = false ->
+  s_bad (step n st (HSetConfig c us)) = all_good n.
+Proof. exact set_config_resets. Qed.
+Print Assumptions C11_set_config_resets.
+
+Theorem C11_bad_atoms_follow_config : forall n st0 c0 us0 ops,
+  let st := fold_left (step n) ops (step n st0 (HSetConfig c0 us0)) in
+  prep (s_cfg st) = false -> s_bad st = all_good n.
+Proof. exact bad_atoms_follow_config. Qed.
+Print Assumptions C11_bad_atoms_follow_config.
+
+Theorem C11_loaded_config_refuted :
+  exists n c rus,
+    let st := step n {| s_cfg := c; s_bad := all_good n |} (HRun rus) in
+    prep c = true
+    /\ map (fun us => draw (h_eta c) us) rus = [all_good n; all_good n]
+    /\ s_bad st = repeat true n.
+Proof. exact loaded_config_refuted. Qed.
+Print Assumptions C11_loaded_config_refuted.
